@@ -166,11 +166,11 @@ theorem setRel_symm (p : Val → Val → Bool) (l w : List Val)
   · obtain ⟨y, hy, hxy⟩ := h.1 x hx
     exact ⟨y, hy, hs x hx y hxy⟩
 
-theorem rel_obj_obj (T : Table) (c c' : String) (f f' : Val) (k : Kind) (hk : k.reg = true) (hs : k ≠ .skip) :
+theorem rel_obj_obj (T : Table) (c c' : Cls) (f f' : Val) (k : Kind) (hk : k.reg = true) (hs : k ≠ .skip) :
     rel T (.obj c f) k (.obj c' f') = (c == c' && rel T f (T.whole c) f') := by
   cases k <;> simp_all [rel, Kind.reg]
 
-theorem rel_obj_other (T : Table) (c : String) (f w : Val) (k : Kind) (hk : k.reg = true) (hs : k ≠ .skip)
+theorem rel_obj_other (T : Table) (c : Cls) (f w : Val) (k : Kind) (hk : k.reg = true) (hs : k ≠ .skip)
     (hw : ∀ c' f', w ≠ .obj c' f') : rel T (.obj c f) k w = false := by
   cases w <;> cases k <;> simp_all [rel, Kind.reg]
 
@@ -331,7 +331,7 @@ theorem rel_eq_forall2 (T : Table) (t t' : Val) (h : rel T t .eq t' = true) :
   | _ => simp_all [rel, elems]
 
 /-- attribute chains of a class whose attributes are all compared with `==` -/
-theorem rel_fields_forall2 (T : Table) (c : String) (hc : ∀ i, T.attr c i = .eq) (t t' : Val) (i : Nat)
+theorem rel_fields_forall2 (T : Table) (c : Cls) (hc : ∀ i, T.attr c i = .eq) (t t' : Val) (i : Nat)
     (h : rel T t (.fields c i) t' = true) :
     List.Forall₂ (fun x y => rel T x .eq y = true) (elems t) (elems t') := by
   induction t generalizing t' i with
@@ -531,7 +531,7 @@ theorem rel_setNE_same_members (T : Table) (hT : T.Reg) (xs ys : List Val)
 
 /-! ## one attribute inside an attribute chain -/
 
-theorem rel_fields_at (T : Table) (hT : T.Reg) (c : String) (pre post : List Val) (v v' : Val) (i0 : Nat) :
+theorem rel_fields_at (T : Table) (hT : T.Reg) (c : Cls) (pre post : List Val) (v v' : Val) (i0 : Nat) :
     rel T (ofList (pre ++ v :: post)) (.fields c i0) (ofList (pre ++ v' :: post))
       = rel T v (T.attr c (i0 + pre.length)) v' := by
   induction pre generalizing i0 with
@@ -612,15 +612,15 @@ inductive Differs (T : Table) : Kind → Val → Val → Prop
   /-- a leaf (None, number, string, empty container) against any other value -/
   | leaf {k : Kind} {v w : Val} : k.regE = true → k ≠ .skip → (v.isLeaf = true ∨ w.isLeaf = true) → v ≠ w →
       leafExcept k v w = false → Differs T k v w
-  /-- two reals further apart than 10⁻¹⁰ under rounding -/
-  | real {a b : Rat} : (1 / 10000000000 < a - b ∨ 1 / 10000000000 < b - a) → Differs T .r10 (.num a) (.num b)
+  /-- two reals in different 10-decimal buckets under rounding (in particular: further apart than 10⁻¹⁰, `Differs.real_far`) -/
+  | real {a b : Rat} : round10 a ≠ round10 b → Differs T .r10 (.num a) (.num b)
   /-- a container against an object -/
-  | shapeCO {k : Kind} {h t : Val} {c : String} {f : Val} : k.regE = true → k ≠ .skip → Differs T k (.cons h t) (.obj c f)
-  | shapeOC {k : Kind} {h t : Val} {c : String} {f : Val} : k.regE = true → k ≠ .skip → Differs T k (.obj c f) (.cons h t)
+  | shapeCO {k : Kind} {h t : Val} {c : Cls} {f : Val} : k.regE = true → k ≠ .skip → Differs T k (.cons h t) (.obj c f)
+  | shapeOC {k : Kind} {h t : Val} {c : Cls} {f : Val} : k.regE = true → k ≠ .skip → Differs T k (.obj c f) (.cons h t)
   /-- objects of different classes -/
-  | cls {k : Kind} {c c' : String} {f f' : Val} : k.regE = true → k ≠ .skip → c ≠ c' → Differs T k (.obj c f) (.obj c' f')
+  | cls {k : Kind} {c c' : Cls} {f f' : Val} : k.regE = true → k ≠ .skip → c ≠ c' → Differs T k (.obj c f) (.obj c' f')
   /-- objects of one class whose attribute chains differ -/
-  | attrs {k : Kind} {c c' : String} {f f' : Val} : k.regE = true → k ≠ .skip → Differs T (T.whole c) f f' →
+  | attrs {k : Kind} {c c' : Cls} {f f' : Val} : k.regE = true → k ≠ .skip → Differs T (T.whole c) f f' →
       Differs T k (.obj c f) (.obj c' f')
   /-- element-wise kinds: a difference in the first element, or in the rest -/
   | head {K kh kt : Kind} {h t h' t' : Val} : K.split T = some (kh, kt) → Differs T kh h h' → Differs T K (.cons h t) (.cons h' t')
@@ -630,6 +630,9 @@ inductive Differs (T : Table) : Kind → Val → Val → Prop
       Differs T K (.cons h t) w
   | memR {K k : Kind} {h t w y : Val} : K.setElem = some k → y ∈ elems w → (∀ x ∈ h :: elems t, Differs T k x y) →
       Differs T K (.cons h t) w
+
+theorem Differs.real_far (T : Table) {a b : Rat} (h : 1 / 10000000000 < a - b ∨ 1 / 10000000000 < b - a) :
+    Differs T .r10 (.num a) (.num b) := .real (round10_far a b h)
 
 theorem rel_leaf_false_l (T : Table) (k : Kind) (v w : Val) (hk : k.regE = true) (hs : k ≠ .skip)
     (hl : v.isLeaf = true) (hne : v ≠ w) (hex : leafExcept k v w = false) : rel T v k w = false := by
@@ -680,7 +683,7 @@ theorem differs_sound (T : Table) (hT : T.RegE) {k : Kind} {v w : Val} (h : Diff
   | leaf hk hs hl hne hex => exact rel_leaf_false T _ _ _ hk hs hl hne hex
   | real hab =>
     simp only [rel, beq_eq_false_iff_ne, ne_eq]
-    exact round10_far _ _ hab
+    exact hab
   | shapeCO hk hs => rename_i k h t c f; cases k <;> simp_all [rel, Kind.regE, setRel, elems, anyV, allV]
   | shapeOC hk hs => exact rel_obj_other T _ _ _ _ (Kind.regE_reg hk) hs (by simp)
   | cls hk hs hc =>
@@ -704,73 +707,61 @@ theorem differs_sound (T : Table) (hT : T.RegE) {k : Kind} {v w : Val} (h : Diff
 
 /-! ## the class tables satisfy the side conditions -/
 
-/-- side conditions of one class row: every `__eq__` kind is an eq-table kind and not `skip` (every constructor
-    attribute is compared), every `__hash__` kind is regular and coarser than the `__eq__` kind of the same attribute,
-    and a value-set hash is only used where `__eq__` compares every attribute with `==` -/
+/-- side conditions of one class row: every `__eq__` kind is an eq-table kind and not `skip` (every listed attribute is
+    compared), every `__hash__` kind is regular and coarser than the `__eq__` kind of the same attribute, and a
+    value-set hash is only used where `__eq__` compares every attribute with `==` -/
 def rowOk (row : ClassRow) : Bool :=
   row.attrs.all (fun ar => ar.eqK.regE && ar.eqK != .skip && ar.hashK.reg && coarser ar.hashK ar.eqK)
-    && row.restEq.regE && row.restHash.reg && coarser row.restHash row.restEq
+    && row.restEq.regE && row.restEq != .skip && row.restHash.reg && coarser row.restHash row.restEq
     && (match row.wholeHash with
         | none => true
         | some k => k == .setNA && row.attrs.all (fun ar => ar.eqK == .eq) && row.restEq == .eq)
 
-theorem classes_ok : classes.all rowOk = true := by decide
+theorem rows_ok (c : Cls) : rowOk (row c) = true := by
+  cases c <;> decide
 
-theorem findClass_ok {c : String} {row : ClassRow} (h : findClass c = some row) : rowOk row = true := by
-  have hm : row ∈ classes := List.mem_of_find?_eq_some h
-  exact List.all_eq_true.mp classes_ok row hm
-
-theorem kinds_ok (c : String) (i : Nat) :
-    (kinds c i).1.regE = true ∧ (kinds c i).2.reg = true ∧ coarser (kinds c i).2 (kinds c i).1 = true := by
+theorem kinds_ok (c : Cls) (i : Nat) :
+    (kinds c i).1.regE = true ∧ (kinds c i).1 ≠ .skip ∧ (kinds c i).2.reg = true
+      ∧ coarser (kinds c i).2 (kinds c i).1 = true := by
+  have hr := rows_ok c
+  simp only [rowOk, Bool.and_eq_true, List.all_eq_true, bne_iff_ne, ne_eq] at hr
   unfold kinds
-  cases hf : findClass c with
-  | none => simp [Kind.regE, Kind.reg, coarser]
-  | some row =>
-    have hr := findClass_ok hf
-    simp only [rowOk, Bool.and_eq_true, List.all_eq_true] at hr
+  cases ha : (row c).attrs[i]? with
+  | none => dsimp only; exact ⟨hr.1.1.1.1.2, hr.1.1.1.2, hr.1.1.2, hr.1.2⟩
+  | some ar =>
     dsimp only
-    cases ha : row.attrs[i]? with
-    | none => dsimp only; exact ⟨hr.1.1.1.2, hr.1.1.2, hr.1.2⟩
-    | some ar =>
-      dsimp only
-      have hm : ar ∈ row.attrs := List.mem_of_getElem? ha
-      have := hr.1.1.1.1 ar hm
-      exact ⟨this.1.1.1, this.1.2, this.2⟩
+    have hm : ar ∈ (row c).attrs := List.mem_of_getElem? ha
+    have := hr.1.1.1.1.1 ar hm
+    exact ⟨this.1.1.1, this.1.1.2, this.1.2, this.2⟩
 
 theorem eqT_regE : eqT.RegE := ⟨fun c i => (kinds_ok c i).1, fun _ => rfl⟩
 theorem eqT_reg : eqT.Reg := ⟨fun c i => Kind.regE_reg (kinds_ok c i).1, fun _ => rfl⟩
 
-theorem wholeHash_ok (c : String) :
+theorem wholeHash_ok (c : Cls) :
     wholeHashKind c = .fields c 0 ∨ (wholeHashKind c = .setNA ∧ ∀ i, (kinds c i).1 = .eq) := by
+  have hr := rows_ok c
+  simp only [rowOk, Bool.and_eq_true, List.all_eq_true] at hr
   unfold wholeHashKind
-  cases hf : findClass c with
+  cases hw : (row c).wholeHash with
   | none => left; rfl
-  | some row =>
-    have hr := findClass_ok hf
-    simp only [rowOk, Bool.and_eq_true, List.all_eq_true] at hr
-    dsimp only
-    cases hw : row.wholeHash with
-    | none => left; rfl
-    | some k =>
-      right
-      have h3 := hr.2
-      rw [hw] at h3
-      simp only [Bool.and_eq_true, beq_iff_eq, List.all_eq_true] at h3
-      refine ⟨by simp [h3.1.1], fun i => ?_⟩
-      unfold kinds
-      rw [hf]
-      dsimp only
-      cases ha : row.attrs[i]? with
-      | none => exact h3.2
-      | some ar => exact h3.1.2 ar (List.mem_of_getElem? ha)
+  | some k =>
+    right
+    have h3 := hr.2
+    rw [hw] at h3
+    simp only [Bool.and_eq_true, beq_iff_eq, List.all_eq_true] at h3
+    refine ⟨by simp [h3.1.1], fun i => ?_⟩
+    unfold kinds
+    cases ha : (row c).attrs[i]? with
+    | none => exact h3.2
+    | some ar => exact h3.1.2 ar (List.mem_of_getElem? ha)
 
 theorem hashT_reg : hashT.Reg := by
-  refine ⟨fun c i => (kinds_ok c i).2.1, fun c => ?_⟩
+  refine ⟨fun c i => (kinds_ok c i).2.2.1, fun c => ?_⟩
   show (wholeHashKind c).reg = true
   rcases wholeHash_ok c with h | ⟨h, _⟩ <;> rw [h] <;> rfl
 
 theorem eq_hash_coarser : Coarser eqT hashT :=
-  ⟨eqT_regE, fun c i => (kinds_ok c i).2.2, wholeHash_ok⟩
+  ⟨eqT_regE, fun c i => (kinds_ok c i).2.2.2, wholeHash_ok⟩
 
 theorem not_differs_skip (T : Table) (v w : Val) : ¬ Differs T .skip v w := by
   intro h
